@@ -6,6 +6,7 @@ import FFVerif.Model.Proto
 import FFVerif.Props.C01
 import FFVerif.Props.C02
 import FFVerif.Props.C03
+import FFVerif.Props.C04
 import FFVerif.Props.C05
 import FFVerif.Props.C06
 import FFVerif.Props.C07
@@ -146,6 +147,27 @@ def handle (toks : List String) : Option String :=
     let t ← parseIntTable t
     let t' ← parseIntTable t'
     some (if C03.eventsMappedOK c d t t' then "ok" else "fail:events")
+  | ["c04closed", h, tRF, tRP, tRep, t4] => do
+    let h ← parseList h
+    let tRF ← parseTable tRF
+    let tRP ← parseTable tRP
+    let tRep ← parseTable tRep
+    let t4 ← parseTable t4
+    some (showFail ((if C04.closedAtExtreme h then [] else ["not-closed"]) ++
+      (if C04.agreeOK tRF tRP tRep then [] else ["agree"]) ++
+      (if t4 == [(0, 0)] || C04.fourPointMinusOK h tRF t4 then [] else ["fourpoint-minus-closing"])))
+  | ["c04any", h, csRF, tRF, csRP, cs4] => do
+    let h ← parseList h
+    let csRF ← parseCycs csRF
+    let tRF ← parseTable tRF
+    let csRP ← parseCycs csRP
+    let cs4 ← parseCycs cs4
+    some (showFail ((if C04.residueOK h cs4 tRF then [] else ["residue"]) ++
+      (if C04.noTieOK h csRF cs4 then [] else ["no-tie"]) ++
+      (if C04.containsOK csRF csRP then [] else ["contains"])))
+  | ["c04notie", h] => do
+    let h ← parseList h
+    some (if C04.noTies h then "1" else "0")
   | ["c01mat", h, m] => do
     let h ← parseList h
     let m ← parseTriples m
